@@ -281,4 +281,18 @@ theorem stepOther_mload (env : Env) (s : St) : stepOther env s 0x51 = (match s.s
         .ok { s with stack := bytesToWord (mslice m o n) :: rest, memory := m, pc := s.pc + 1 }
     | _ => .error .stackUnderflow) := rfl
 
+theorem memRegion1 (m : ByteArray) (off : W) :
+    (off.toNat + 1 > u32Max ∧ memRegion m off 1#256 = .error .illegalMemoryAccess) ∨
+    (off.toNat + 1 ≤ u32Max ∧ memRegion m off 1#256 = .ok (memGrow m (off.toNat + 1), some (off.toNat, 1))) := by
+  unfold memRegion
+  have h1 : (1#256 : W).toNat = 1 := by decide
+  rw [h1]
+  have h0 : ¬ 1 > u32Max := by unfold u32Max; omega
+  simp only [h0, if_false, Nat.one_ne_zero]
+  by_cases h3 : off.toNat > u32Max
+  · left; exact ⟨by omega, by simp [h3]⟩
+  · by_cases h4 : off.toNat + 1 > u32Max
+    · left; exact ⟨h4, by simp [h3, h4]⟩
+    · right; refine ⟨by omega, ?_⟩; simp [h3, h4]
+
 end BA.Evm
